@@ -63,6 +63,7 @@ type c36Shape struct {
 	Stale    map[string][]byte         // leftovers of an earlier interrupted run of THIS file: must be gone after a successful run
 	Args     func(dir string) []string // langlint arguments
 	Relative bool                      // cwd = dir and relative argument
+	DirName  string                    // name of the message directory (default "msgs"): path-shape dimension
 	CutWrite bool                      // the traced runs are made under RLIMIT_FSIZE = half the formatted size: the temp file is written by
 	//                                    two write calls (short write, then EFBIG), so a kill BETWEEN them leaves a partially written file
 	fsize int64
@@ -85,6 +86,57 @@ var c36MutatingCalls = map[string]bool{"write": true, "pwrite64": true, "writev"
 	"rename": true, "renameat": true, "renameat2": true, "unlink": true, "unlinkat": true, "link": true, "linkat": true,
 	"symlink": true, "symlinkat": true, "mkdir": true, "mkdirat": true, "rmdir": true, "truncate": true, "ftruncate": true,
 	"fchown": true, "fchownat": true, "utimensat": true, "creat": true}
+
+// c36Unescape undoes strace's C-style escaping of a printed string (\\ \" \n \t ... \ooo octal, \xhh): non-ASCII bytes,
+// back-slashes and control characters of a path are printed escaped.
+func c36Unescape(s string) string {
+	if !strings.Contains(s, "\\") {
+		return s
+	}
+
+	var b []byte
+
+	for i := 0; i < len(s); i++ {
+		if s[i] != '\\' || i+1 >= len(s) {
+			b = append(b, s[i])
+
+			continue
+		}
+
+		i++
+
+		switch c := s[i]; {
+		case c >= '0' && c <= '7':
+			v, n := 0, 0
+			for n < 3 && i < len(s) && s[i] >= '0' && s[i] <= '7' {
+				v = v*8 + int(s[i]-'0')
+				i++
+				n++
+			}
+
+			i--
+			b = append(b, byte(v))
+		case c == 'x' && i+2 < len(s):
+			v, _ := strconv.ParseUint(s[i+1:i+3], 16, 8)
+			b = append(b, byte(v))
+			i += 2
+		case c == 'n':
+			b = append(b, '\n')
+		case c == 't':
+			b = append(b, '\t')
+		case c == 'r':
+			b = append(b, '\r')
+		case c == 'v':
+			b = append(b, '\v')
+		case c == 'f':
+			b = append(b, '\f')
+		default:
+			b = append(b, c)
+		}
+	}
+
+	return string(b)
+}
 
 // c36Role names a path relative to the message files: T (a message file), T.bak,
 // T.tmp, dir, other:<name>; "" = outside the directory.
@@ -188,7 +240,7 @@ func c36Parse(logPath, cwd, dir string, files []string) ([]scall, bool, error) {
 			if m := reFd.FindStringSubmatch(c.Args); m != nil {
 				role := ""
 				if strings.HasPrefix(m[2], "/") {
-					role = c36Role(m[2], cwd, dir, files)
+					role = c36Role(c36Unescape(m[2]), cwd, dir, files)
 				}
 
 				if role == "" && (m[1] == "1" || m[1] == "2") && seenRelevant && c.Name != "close" {
@@ -205,7 +257,7 @@ func c36Parse(logPath, cwd, dir string, files []string) ([]scall, bool, error) {
 			}
 
 			for _, q := range reQuoted.FindAllStringSubmatch(args, -1) {
-				roles = append(roles, c36Role(q[1], cwd, dir, files))
+				roles = append(roles, c36Role(c36Unescape(q[1]), cwd, dir, files))
 			}
 		}
 
@@ -611,6 +663,12 @@ func c36Shapes() []c36Shape {
 			Stale: map[string][]byte{"messages_xx.txt.langlint-777": longJunk, "messages_xx.txt.langlint-bak": longJunk, "messages_xx.txt.langlint-0000000000": []byte("[old]\nshort=1\n")}},
 		{Name: "write-cut-in-two", Files: one, Content: [][]byte{medium.Bytes()}, Mode: 0o644, CutWrite: true, Args: abs("messages_xx.txt")},
 		{Name: "readonly-0444", Files: one, Content: [][]byte{small}, Mode: 0o444, Args: abs("messages_xx.txt")},
+		// path shapes: the same rewrite with directory and file names that a pattern-based or shell-like treatment of the path gets wrong
+		{Name: "path-glob-metacharacters", DirName: "a[1]", Files: []string{"m[ain]*?.txt"}, Content: [][]byte{small}, Mode: 0o644, Args: abs("m[ain]*?.txt")},
+		{Name: "path-unbalanced-bracket-backslash", DirName: "x[", Files: []string{`b\s[.txt`}, Content: [][]byte{small}, Mode: 0o644, Args: abs(`b\s[.txt`)},
+		{Name: "path-spaces-unicode", DirName: "my dir é", Files: []string{"mes sages_日本 ü.txt"}, Content: [][]byte{small}, Mode: 0o644, Args: abs("mes sages_日本 ü.txt")},
+		{Name: "path-very-long-name", DirName: "d" + strings.Repeat("long-", 30), Files: []string{"messages_" + strings.Repeat("n", 200) + ".txt"}, Content: [][]byte{small}, Mode: 0o644,
+			Args: abs("messages_" + strings.Repeat("n", 200) + ".txt")},
 		{Name: "private-0600", Files: one, Content: [][]byte{small}, Mode: 0o600, Args: abs("messages_xx.txt")},
 		{Name: "exec-0755-relative", Files: one, Content: [][]byte{small}, Mode: 0o755, Relative: true,
 			Args: func(string) []string { return []string{"messages_xx.txt"} }},
@@ -619,7 +677,7 @@ func c36Shapes() []c36Shape {
 	}
 }
 
-const c36QuickShapes = 8 // the first eight shapes run in the quick tier; thorough runs all twelve
+const c36QuickShapes = 13 // the first thirteen shapes run in the quick tier; thorough runs all sixteen
 
 // c36Edits are what happens to the message file between the crash and the next run.
 var c36Edits = []string{"keep", "shorter", "longer"}
@@ -778,7 +836,12 @@ func c36RunShape(t *testing.T, r *vh.Report, langlint, base string, sh c36Shape)
 		return
 	}
 
-	c := &c36Ctx{t: t, r: r, langlint: langlint, base: base, dir: filepath.Join(base, "msgs"), logPath: filepath.Join(base, "trace.log"), sh: sh,
+	dirName := sh.DirName
+	if dirName == "" {
+		dirName = "msgs"
+	}
+
+	c := &c36Ctx{t: t, r: r, langlint: langlint, base: base, dir: filepath.Join(base, dirName), logPath: filepath.Join(base, "trace.log"), sh: sh,
 		expected: map[string][][]byte{}, statesSeen: map[string]bool{}}
 
 	// --- 0. reference results of the real binary on pristine directories
@@ -1328,7 +1391,7 @@ func c36Predict(initial []string, done []scall, dir string, relative bool) ([]st
 
 		var paths []string
 		for _, q := range reQuoted.FindAllStringSubmatch(args, -1) {
-			paths = append(paths, q[1])
+			paths = append(paths, c36Unescape(q[1]))
 		}
 
 		switch c.Name {
